@@ -41,6 +41,7 @@ package vm
 //@ func (*Contract).UseGas
 //@   props C16
 //@   requires c != nil
+//@   let gasLeft = c.Gas
 //@   modifies c.Gas
 //@   ensures result == (old(c.Gas) >= gas)
 //@   ensures result ==> c.Gas == old(c.Gas) - gas
